@@ -227,6 +227,7 @@ func runC03(c *Ctx) {
 		}
 	}
 	c03Digest(c, g)
+	c03NoDigestOrder(c)
 	c03Delta(c, g)
 	// --- R3: gossipRound ---
 	c03Round(c)
@@ -1074,6 +1075,33 @@ func c12Lifecycle(c *Ctx, windowsF *types.Var) {
 			c.check(good, "C12.R5", fnName(fn)+"/phi-of-that-node-now", r.Pos(), "returns windows[nodeID].Phi(timestamp)", "the suspicion level returned is not the Phi of that node's window at the given time")
 		}
 	}
+	// a window is discarded only by Remove: dropping it anywhere else forgets how long the peer has been silent
+	for _, f2 := range pkgFuncs(p, "pkg/gossip") {
+		allInstrs(f2, func(i ssa.Instruction) {
+			cl, ok := i.(*ssa.Call)
+			if !ok {
+				return
+			}
+			b, ok := cl.Call.Value.(*ssa.Builtin)
+			if !ok || b.Name() != "delete" {
+				return
+			}
+			if _, ok := loadedField(cl.Call.Args[0], windowsF); !ok {
+				return
+			}
+			c.check(baseName(topFn(f2)) == "Remove", "C12.R5", fnName(f2)+"/window-deleted-only-by-Remove", cl.Pos(), "windows are deleted by Remove only",
+				"a peer's arrival window is deleted outside Remove: the next suspicion query recreates it at the query time and returns 0, so a silent peer is un-suspected")
+		})
+		allInstrs(f2, func(i ssa.Instruction) {
+			st, ok := i.(*ssa.Store)
+			if !ok {
+				return
+			}
+			if _, ok := addrOfField(st.Addr, windowsF); ok && !strings.HasPrefix(baseName(topFn(f2)), "new") {
+				c.fail("C12.R5", fnName(f2)+"/window-table-replaced", st.Pos(), "the table of arrival windows is replaced outside the constructor")
+			}
+		})
+	}
 	if fn := p.Func(gsPkg, "accrualFailureDetector.Remove"); fn != nil {
 		c.analysed(fnName(fn))
 		isDel := func(i ssa.Instruction) bool {
@@ -1239,4 +1267,56 @@ func c03Delta(c *Ctx, g *gossipAnchors) {
 	if nA == 0 {
 		c.fail("C03.R7", fnName(fn)+"/answers-every-known-node", fn.Pos(), "no deltaEntry(entry.ID, entry.Version) call found")
 	}
+}
+
+// c03NoDigestOrder (C03.R9): a digest is never sorted. When it does not fit
+// into one packet only a prefix is sent; any deterministic order (by version,
+// by id) makes the same nodes occupy every packet, and the others are never
+// asked about. (Digest() ranges over a map and the senders shuffle: the order
+// is arbitrary today.)
+func c03NoDigestOrder(c *Ctx) {
+	p := c.P
+	digestT := p.NamedType(gsPkg, "digest")
+	entryT := p.NamedType(gsPkg, "digestEntry")
+	if digestT == nil || entryT == nil {
+		return
+	}
+	bad := ""
+	isDigestVal := func(v ssa.Value) bool {
+		t := v.Type()
+		if types.Identical(t, digestT) {
+			return true
+		}
+		if sl, ok := t.Underlying().(*types.Slice); ok && types.Identical(sl.Elem(), entryT) {
+			return true
+		}
+		return false
+	}
+	for _, fn := range pkgFuncs(p, "pkg/gossip") {
+		for _, g := range withAnon(fn) {
+			allInstrs(g, func(i ssa.Instruction) {
+				cl, ok := i.(*ssa.Call)
+				if !ok {
+					return
+				}
+				n := commonName(&cl.Call)
+				if !(strings.HasPrefix(n, "sort.") || strings.HasPrefix(n, "slices.Sort")) {
+					return
+				}
+				for _, a := range cl.Call.Args {
+					v := strip(a)
+					if mi, ok := v.(*ssa.MakeInterface); ok {
+						v = strip(mi.X)
+					}
+					if ct, ok := v.(*ssa.ChangeType); ok {
+						v = strip(ct.X)
+					}
+					if isDigestVal(v) {
+						bad = n + " on a digest at " + p.pos(cl.Pos())
+					}
+				}
+			})
+		}
+	}
+	c.check(bad == "", "C03.R9", "pkg/gossip/digest-never-sorted", token.NoPos, "no sort call receives a digest", "a digest is put into a deterministic order ("+bad+"): when it is truncated to the packet size the same nodes fill every packet and the rest are never requested")
 }
